@@ -1,4 +1,5 @@
 SPECIFICATION Spec
+CHECK_DEADLOCK FALSE
 CONSTANTS
   N = 3
   NRoots = 2
@@ -12,4 +13,3 @@ CONSTANTS
 INVARIANT TypeOK
 INVARIANT Closure
 INVARIANT SelfSufficient
-CHECK_DEADLOCK FALSE
